@@ -7,7 +7,7 @@
 (*   chk "same"  all results are one and the same object (structure)        *)
 (*   chk "val+same"  both;  "val1+same": value of the first, sameness of all *)
 (* Value comparison is three-valued; only a definite difference rejects.    *)
-EXTENDS Integers, Sequences, FiniteSets, TLC, Json, IOUtils, Term, Envs, Expand
+EXTENDS Integers, Sequences, FiniteSets, TLC, Json, IOUtils, Term, Envs, Expand, Canon
 VARIABLES l, bad, dec
 
 Finite(v) == v.t = "num" \/ v.t = "bool"
@@ -31,6 +31,8 @@ SomeFinite(recipe, envs) == \E k \in 1..Len(envs) : Finite(Val(recipe, envs[k]))
 ValOne(recipe, res, envs) ==
     IF res.exc = "VerifAssertionError" THEN "bad:assertion"
     ELSE IF res.exc # "" THEN (IF SomeFinite(recipe, envs) THEN "bad:exception:" \o res.exc ELSE "unk")
+    \* cross-cutting C03 monitor: whatever the API returned must be in canonical form
+    ELSE IF ~IsCanonicalDeep(res.v) THEN "bad:not-canonical"
     ELSE LET s == ScanEnvs(recipe, res.v, envs, 1, FALSE)
          IN IF s = "eq" THEN "ok" ELSE IF s = "unk" THEN "unk" ELSE "bad:value:" \o s
 
@@ -63,6 +65,13 @@ CheckEv(e) ==
                         THEN Worst(<<vals[1], vals[2],
                                      IF e.r.vs[1].v = e.r.vs[2].v THEN "ok" ELSE "bad:equal-polynomials-expand-differently">>)
                         ELSE "unk"
+              \* C03: only the structural clause (and the assertion hook): any library exception
+              \* other than a failed canonical-form assertion is acceptable here
+              [] e.c.chk = "canon" ->
+                   Worst([i \in 1..Len(e.r.vs) |->
+                            IF e.r.vs[i].exc = "VerifAssertionError" THEN "bad:assertion"
+                            ELSE IF e.r.vs[i].exc # "" THEN "unk"
+                            ELSE IF IsCanonicalDeep(e.r.vs[i].v) THEN "ok" ELSE "bad:not-canonical"])
               [] OTHER -> "bad:unknown-check"
 
 Events == ndJsonDeserialize(IOEnv.TRACE)
